@@ -365,6 +365,11 @@ func cmdCheck(args []string) int {
 		}
 		sort.Strings(he.Stubs)
 		fmt.Printf("harness %-44s paths=%-6d branches=%-6d asserts=%d/%d ends=%v wall=%.1fs\n", hi.name, h.paths, h.branches, h.assertsOK, h.assertsAll, h.endCounts, h.wall.Seconds())
+		if *verbose || os.Getenv("GOSYM_WHY") != "" {
+			for k, v := range h.why {
+				fmt.Printf("  why %-40s queries=%d sat=%d\n", k, v[0], v[1])
+			}
+		}
 		// declared cover labels must be reachable (vacuity guard)
 		if want, ok := hi.opts["covers"]; ok {
 			for _, l := range strings.Split(want, ",") {
